@@ -6,11 +6,11 @@ id=$1; patch=$2; tier=${3:-quick}; shift 3 2>/dev/null
 checks="$id $@"
 wt=/tmp/ts-$id-$$
 git -C /repo worktree add --detach $wt HEAD >/dev/null 2>&1 || exit 2
-trap "git -C /repo worktree remove --force $wt >/dev/null 2>&1; rm -rf $wt-build" EXIT
+trap "rm -rf $wt-xdg; git -C /repo worktree remove --force $wt >/dev/null 2>&1; rm -rf $wt-build" EXIT
 if ! git -C $wt apply $patch; then echo "PATCH-DOES-NOT-APPLY"; exit 2; fi
 echo "== patch touches: $(git -C $wt diff --stat | tail -1)"
 pk=$(git -C $wt diff --name-only | xargs -n1 dirname | sort -u | sed 's|^|./|' | tr '\n' ' ')
-( cd $wt && GOFLAGS=-mod=mod GOPROXY=off go build ./... && GOFLAGS=-mod=mod GOPROXY=off unshare -n -- sh -c 'ip link set lo up; exec "$@"' sh go test -vet=off -count=1 $pk 2>&1 | grep -E "^(--- FAIL|FAIL|ok)" | grep -v -E "TestJoin|TestNewClient|TestStatsd" | tr '\n' ' ' ; echo )
+( cd $wt && GOFLAGS=-mod=mod GOPROXY=off go build ./... && GOFLAGS=-mod=mod GOPROXY=off env GOCACHE=$(go env GOCACHE) XDG_CACHE_HOME=$wt-xdg unshare -n -- sh -c 'ip link set lo up; exec "$@"' sh go test -vet=off -count=1 $pk 2>&1 | grep -E "^(--- FAIL|FAIL|ok)" | grep -v -E "TestJoin|TestNewClient|TestStatsd" | tr '\n' ' ' ; echo )
 for c in $checks; do
   lc=$(echo $c | tr A-Z a-z)
   out=$(cd /verif && VERIF_EVIDENCE_DIR=$wt-build/evidence VERIF_REPLAY_DIR=$wt-build/replays VERIF_REPO=$wt VERIF_BUILD=$wt-build VERIF_ONLY=$lc ./check $c --tier $tier 2>&1)
